@@ -37,6 +37,8 @@ from liquid2.exceptions import LiquidTypeError
 from liquid2.exceptions import UnknownFilterError
 from liquid2.expression import Expression
 from liquid2.limits import to_int
+from liquid2.unescape import escape as escape_string
+from liquid2.unescape import quote_string
 from liquid2.unescape import unescape
 
 if TYPE_CHECKING:
@@ -207,6 +209,9 @@ class StringLiteral(Literal[str]):
 
     def __init__(self, token: TokenT, value: str):
         super().__init__(token, value)
+
+    def __str__(self) -> str:
+        return quote_string(self.value)
 
     def __eq__(self, other: object) -> bool:
         return isinstance(other, StringLiteral) and self.value == other.value
@@ -382,11 +387,19 @@ class TemplateString(Expression):
         return isinstance(other, TemplateString) and self.template == other.template
 
     def __str__(self) -> str:
-        return repr(
-            "".join(
-                e.value if isinstance(e, StringLiteral) else f"${{{e}}}"
+        text = "".join(e.value for e in self.template if isinstance(e, StringLiteral))
+        quote = '"' if "'" in text and '"' not in text else "'"
+        # Only the literal parts are escaped. Interpolated expressions are Liquid
+        # markup in their own right.
+        return (
+            quote
+            + "".join(
+                escape_string(e.value, quote)
+                if isinstance(e, StringLiteral)
+                else f"${{{e}}}"
                 for e in self.template
             )
+            + quote
         )
 
     def __hash__(self) -> int:
@@ -499,6 +512,29 @@ class LambdaExpression(Expression):
 
 
 RE_PROPERTY = re.compile(r"[\u0080-\uFFFFa-zA-Z_][\u0080-\uFFFFa-zA-Z0-9_-]*")
+
+# Words that the lexer or parser would not read back as the name of a variable.
+RESERVED_WORDS = frozenset(
+    [
+        "true",
+        "false",
+        "and",
+        "or",
+        "in",
+        "not",
+        "contains",
+        "nil",
+        "null",
+        "if",
+        "else",
+        "with",
+        "required",
+        "as",
+        "for",
+        "empty",
+        "blank",
+    ]
+)
 Segments: TypeAlias = tuple[Union[str, int, "Segments"], ...]
 
 
@@ -518,7 +554,19 @@ class Path(Expression):
 
     def __str__(self) -> str:
         it = iter(self.path)
-        buf = [str(next(it))]
+        root = next(it)
+        if (
+            isinstance(root, str)
+            and RE_PROPERTY.fullmatch(root)
+            and root not in RESERVED_WORDS
+        ):
+            buf = [root]
+        elif isinstance(root, str):
+            # A root segment that would not be read back as a name.
+            buf = [f"[{quote_string(root)}]"]
+        else:
+            buf = [f"[{root}]"]
+
         for segment in it:
             if isinstance(segment, Path):
                 buf.append(f"[{segment}]")
@@ -526,7 +574,7 @@ class Path(Expression):
                 if RE_PROPERTY.fullmatch(segment):
                     buf.append(f".{segment}")
                 else:
-                    buf.append(f"[{segment!r}]")
+                    buf.append(f"[{quote_string(segment)}]")
             else:
                 buf.append(f"[{segment}]")
         return "".join(buf)
